@@ -6,11 +6,30 @@ record *that the code executed* for a given CsvPath object; the oracle
 not only for template families.  Installed only when the attributes exist."""
 
 EVENTS = {}  # id(csvpath) -> number of executed verdict events
-INSTALLED = {"fail": False, "stop": False, "error": False}
+ERRORS = {}  # id(csvpath) -> number of errors raised below an expression (whatever happens to them later)
+_SEEN = set()
+INSTALLED = {"fail": False, "stop": False, "error": False, "raised": False}
 
 
 def reset():
     EVENTS.clear()
+    ERRORS.clear()
+    _SEEN.clear()
+
+
+def errors_raised(cp):
+    return ERRORS.get(id(cp), 0)
+
+
+def _note_errors(expr):
+    try:
+        cp = expr.matcher.csvpath
+        for e in expr.errors:
+            if id(e) not in _SEEN:
+                _SEEN.add(id(e))
+                ERRORS[id(cp)] = ERRORS.get(id(cp), 0) + 1
+    except Exception:  # noqa: BLE001
+        pass
 
 
 def count(cp):
@@ -76,6 +95,33 @@ def install():
             wrapped_handle._verif_wrapped = True
             ErrorHandler._handle_if = wrapped_handle
         INSTALLED["error"] = True
+    except Exception:  # noqa: BLE001
+        pass
+    try:
+        from csvpath.matching.productions.expression import Expression
+
+        orig_m = Expression.matches
+        if not getattr(orig_m, "_verif_wrapped", False):
+
+            def wrapped_matches(self, *, skip=None, _orig=orig_m):
+                r = _orig(self, skip=skip)
+                if self.errors:
+                    _note_errors(self)
+                return r
+
+            wrapped_matches._verif_wrapped = True
+            Expression.matches = wrapped_matches
+        orig_h = Expression.handle_error
+        if not getattr(orig_h, "_verif_wrapped", False):
+
+            def wrapped_he(self, error, _orig=orig_h):
+                r = _orig(self, error)
+                _note_errors(self)
+                return r
+
+            wrapped_he._verif_wrapped = True
+            Expression.handle_error = wrapped_he
+        INSTALLED["raised"] = True
     except Exception:  # noqa: BLE001
         pass
     return all(INSTALLED.values())
